@@ -66,6 +66,16 @@ func checkC05(c c05Case, rec *Rec) *Violation {
 	var engine *urlfilter.NetworkEngine
 	// every witness is also tried with exactly one letter (all its occurrences) in upper case
 	witnesses := append([]string{}, c.Witnesses...)
+	for i, u := range c.Witnesses {
+		if i < 3 && len(u) < 200 {
+			// the same witness pushed towards, across and beyond the 4096-byte cap of the request URL
+			for _, n := range []int{4096 - len(u), 4096 - len(u)/2, 4090, 4100} {
+				if n > 0 {
+					witnesses = append(witnesses, "http://h.example/"+strings.Repeat("q", n-17)+u)
+				}
+			}
+		}
+	}
 	for _, u := range c.Witnesses {
 		seen := map[byte]bool{}
 		for i := 0; i < len(u) && len(witnesses) < 400; i++ {
@@ -77,14 +87,16 @@ func checkC05(c c05Case, rec *Rec) *Violation {
 		}
 	}
 	for _, u := range witnesses {
-		ok := status == 0 || re.MatchString(u)
+		// "accepts the URL": the URL as the request carries it (capped), matched by the compiled pattern
+		req := rules.NewRequest(u, "http://example.org/", rules.TypeOther)
+		ok := status == 0 || re.MatchString(req.URL)
 		if !ok {
 			rec.Label("witness-not-accepted")
 			continue
 		}
 		accepted[u] = true
 		rec.Label("witness-accepted")
-		if !strings.Contains(strings.ToLower(u), rule.Shortcut) {
+		if !strings.Contains(req.URLLowerCase, rule.Shortcut) {
 			return viol(id, "C05:shortcut-not-implied:"+c05Classify(c.Rule),
 				"rule %q: compiled pattern %v accepts %q but the lower-cased string does not contain the shortcut %q", c.Rule, re, u, rule.Shortcut)
 		}
